@@ -105,6 +105,8 @@ pub enum TableCase {
     MixedBin(usize, usize, usize, usize),
     /// (position, a, b, template?)
     MixedTern(usize, usize, usize, usize),
+    /// (operator, a, b, side of the negated literal)
+    NegLit(usize, usize, usize, usize),
 }
 
 pub fn table_cases(alphabet_len: usize, tier: Tier) -> Vec<TableCase> {
@@ -153,6 +155,15 @@ pub fn table_cases(alphabet_len: usize, tier: Tier) -> Vec<TableCase> {
             }
         }
     }
+    for op in 0..nb {
+        for a in &small {
+            for b in &small {
+                for side in 0..2 {
+                    v.push(TableCase::NegLit(op, *a, *b, side));
+                }
+            }
+        }
+    }
     for pos in 0..4 {
         for a in &small {
             for b in &small {
@@ -179,6 +190,7 @@ pub fn table_source(case: &TableCase, alphabet: &[BigUint]) -> String {
         ),
         TableCase::MixedBin(op, a, side, template) => mixed_binop_program(binop_symbols()[*op], &alphabet[*a], *side, *template == 1),
         TableCase::MixedTern(pos, a, b, template) => mixed_ternary_program(*pos, &alphabet[*a], &alphabet[*b], *template == 1),
+        TableCase::NegLit(op, a, b, side) => negated_literal_program(binop_symbols()[*op], &alphabet[*a], &alphabet[*b], *side),
     }
 }
 
@@ -190,6 +202,7 @@ pub fn table_case_json(case: &TableCase, curve: &str) -> Value {
         TableCase::Bool(r1, l, r2, a, b) => json!({"kind": "table", "curve": curve, "form": "bool", "ix": [r1, l, r2, a, b]}),
         TableCase::MixedBin(op, a, side, t) => json!({"kind": "table", "curve": curve, "form": "mixed-bin", "ix": [op, a, side, t]}),
         TableCase::MixedTern(pos, a, b, t) => json!({"kind": "table", "curve": curve, "form": "mixed-tern", "ix": [pos, a, b, t]}),
+        TableCase::NegLit(op, a, b, side) => json!({"kind": "table", "curve": curve, "form": "neg-lit", "ix": [op, a, b, side]}),
     }
 }
 
@@ -202,6 +215,7 @@ pub fn table_case_from_json(v: &Value) -> Option<TableCase> {
         "bool" => TableCase::Bool(ix[0], ix[1], ix[2], ix[3], ix[4]),
         "mixed-bin" => TableCase::MixedBin(ix[0], ix[1], ix[2], ix[3]),
         "mixed-tern" => TableCase::MixedTern(ix[0], ix[1], ix[2], ix[3]),
+        "neg-lit" => TableCase::NegLit(ix[0], ix[1], ix[2], ix[3]),
         _ => return None,
     })
 }
@@ -212,7 +226,7 @@ pub fn run(run: &Run) {
          3 prefix, ternary, boolean connectives over comparisons) for all A, B in a 14-value literal \
          alphabet {0,1,2,3,253,254,255,10^11,p/2,p/2+1,p-2,p-1,2^64,2^(bits-2)}, and the same operators \
          with one operand unknown (parameter in a function / input signal in a template, either side) \
-         and ternaries / prefix operators with unknown parts; control flow: every \
+         and ternaries / prefix operators with unknown parts, and with a negated literal as either operand (5-value sub-alphabet); control flow: every \
          skeleton (braced bodies, for) up to the statement bound x every assignment of 7 atoms and 4 \
          conditions, as function and as template, run for n in {0,1,2,p-1}; non-trivial = the program \
          lifts and at least one value claim was compared with a concrete value",
